@@ -5,7 +5,6 @@ import (
 	"go/ast"
 	"go/token"
 	"go/types"
-	"os"
 	"sort"
 	"strings"
 
@@ -380,7 +379,7 @@ func c10R5(e *Engine) {
 			continue
 		}
 		ok := false
-		instrs(fn, func(in ssa.Instruction) {
+		e.walkLocal("interp", fn, 2, func(in ssa.Instruction, ctx []callCtx) {
 			mu, isMU := in.(*ssa.MapUpdate)
 			if !isMU {
 				return
@@ -396,10 +395,7 @@ func c10R5(e *Engine) {
 			}
 			rg := nx.Iter.(*ssa.Range)
 			isItem := false
-			if os.Getenv("MINICHECK_TRACE") != "" {
-				fmt.Println("TRACE", name, e.origins(rg.X))
-			}
-			for _, o := range e.origins(rg.X) {
+			for _, o := range e.originsCtx(rg.X, ctx) {
 				if strings.HasSuffix(o, "Input.Item") || strings.Contains(o, "Input.Item of") {
 					isItem = true
 				}
